@@ -242,6 +242,15 @@ class is_flag_active_visitor<Flag, flag_and>""")]),
                             if constexpr (!is_kleene_event<""", """                        if (state_id >= source_state_id)
                         {
                             if constexpr (!is_kleene_event<""")]),
+ dict(name='chain-back-last-first', prop='C01', rule='C01.chain', edits=[('include/boost/msm/back/dispatch_table.hpp', "typedef typename ::boost::mpl::front<Sequence>::type first_row;", "typedef typename ::boost::mpl::back<Sequence>::type first_row;"),
+      ('include/boost/msm/back/dispatch_table.hpp', "execute<typename ::boost::mpl::pop_front<Sequence>::type>(fsm,region_index,state,evt,", "execute<typename ::boost::mpl::pop_back<Sequence>::type>(fsm,region_index,state,evt,"),
+      ('include/boost/msm/back/dispatch_table.hpp', "::boost::mpl::empty<typename ::boost::mpl::pop_front<Sequence>::type>::type::value>());", "::boost::mpl::empty<typename ::boost::mpl::pop_back<Sequence>::type>::type::value>());")]),
+ dict(name='chain-mp11fct-reverse', prop='C01', rule='C01.chain', edits=[('include/boost/msm/backmp11/favor_compile_time.hpp', """            for (const generic_cell cell : m_transition_cells)
+            {
+                result |= reinterpret_cast<cell_t>(cell)(sm, region_id, event);""", """            for (auto it = m_transition_cells.rbegin(); it != m_transition_cells.rend(); ++it)
+            {
+                const generic_cell cell = *it;
+                result |= reinterpret_cast<cell_t>(cell)(sm, region_id, event);""")]),
  # ---- behaviour-preserving edits: the checks must stay silent
  dict(name='refactor-rename-local', prop='C02', refactor=True, edits=[(B, """            HandledEnum res = ROW::action_call(fsm,evt,
                              ::boost::fusion::at_key<current_state_type>(fsm.m_substate_list),
